@@ -1,10 +1,13 @@
 import Driver.SliceOps
 import Driver.Cache
 import Driver.VE
+import Driver.Stack
 
 def main (args : List String) : IO UInt32 := do
   match args with
   | ["sliceops"] => Driver.SliceOps.main; return 0
   | ["cache"] => Driver.Cache.main; return 0
   | ["ve"] => Driver.VE.main; return 0
+  | ["stack"] => Driver.Stack.main; return 0
+  | ["stackconc"] => Driver.Stack.main; return 0
   | _ => IO.eprintln "usage: tvdriver <component> < trace"; return 2
